@@ -153,8 +153,9 @@ Definition span_shows_as (vis : bool) (p m q msg out : str) : bool :=
         | None => false
         | Some line2 =>
           let cont_ok := fun c : str =>
-            eqs c (pad_left w (dec L2) ++ lit " | " ++ display false line2) ||
-            eqs c (pad_left w (dec L2) ++ lit " | " ++ display true line2) in
+            Nat.leb (length (dec L2)) w &&   (* the number fits the gutter: all `|` in one column *)
+            (eqs c (pad_left w (dec L2) ++ lit " | " ++ display false line2) ||
+             eqs c (pad_left w (dec L2) ++ lit " | " ++ display true line2)) in
           match middle with
           | [c] => negb (Nat.ltb 1 (length rest)) && cont_ok c
           | [dots; c] => Nat.ltb 1 (length rest) && eqs dots (sp ++ lit " | ...") && cont_ok c
